@@ -200,6 +200,8 @@ func (x *runner) runHistory(h *History, count bool) (fails []failure) {
 	// hashes marked invalid while their block was still queued: the store forgets them ("never write it"); the same
 	// hash may be stored again later and is then a new block of the reference map
 	removedQ := map[[32]byte]bool{}
+	removedQ2 := map[[32]byte]bool{} // hashes stored again after they had been forgotten that way
+	poked := false                   // a `poke` operation damaged a file: no property claims afterwards, tie only
 	allAdds := map[[32]byte][]int{} // every block number ever handed to BlockAdd under a hash
 	var db *chain.BlockDB
 	var cur Opts
@@ -244,7 +246,8 @@ func (x *runner) runHistory(h *History, count bool) (fails []failure) {
 	//   * a number below the highest one ever seen that is in neither the main directory nor oldat/ is lost;
 	//   * a file that was in the main directory before the operation (or was created during it) and is gone now, in a
 	//     session without backup, is lost even if a stale copy from an earlier backup session sits in oldat/;
-	//   * a file that LoadBlockIndex created in the main directory while a file of that number sits in oldat/ is lost (shadowed).
+	//   * a file that LoadBlockIndex created in the main directory while a file of that number still sits in oldat/ is lost
+	//     (shadowed — the former finding backup-shadowed-by-new-file; the repaired code moves the backup back instead).
 	// The union over the history must equal the model's list, and the file names of both directories must agree.
 	realLost := map[uint64]bool{}
 	prevMain, prevOld := map[uint64]bool{}, map[uint64]bool{}
@@ -279,8 +282,8 @@ func (x *runner) runHistory(h *History, count bool) (fails []failure) {
 		for idx := int64(0); idx <= nowMax; idx++ {
 			u := uint64(idx)
 			if nowMain[u] {
-				if isReopen && !prevMain[u] && prevOld[u] {
-					realLost[u] = true // created over the backup: shadowed
+				if isReopen && !prevMain[u] && prevOld[u] && nowOld[u] {
+					realLost[u] = true // created over the backup, which is still in oldat/: shadowed
 				}
 				continue
 			}
@@ -359,27 +362,6 @@ func (x *runner) runHistory(h *History, count bool) (fails []failure) {
 		return false
 	}
 
-	// known finding `backup-shadowed-by-new-file`: the block's data file was moved to oldat/ (backup) and a NEW file with
-	// the same number exists in the main directory (LoadBlockIndex fell back to that number because every block of the
-	// newer files was invalid, and created it); BlockGet opens the main directory first
-	shadowed := func(b int) bool {
-		if b < 0 || b >= len(datas) {
-			return false
-		}
-		ix, _ := os.ReadFile(filepath.Join(dir, "blockchain.new"))
-		for p := 0; p+136 <= len(ix); p += 136 {
-			if bytes.Equal(ix[p+56:p+136], datas[b][:80]) && ix[p]&2 == 0 {
-				idx := uint64(ix[p+28]) | uint64(ix[p+29])<<8 | uint64(ix[p+30])<<16 | uint64(ix[p+31])<<24
-				_, e1 := os.Stat(filepath.Join(dir, fmt.Sprintf("bl%08d.dat", idx)))
-				_, e2 := os.Stat(filepath.Join(dir, "oldat", fmt.Sprintf("bl%08d.dat", idx)))
-				if e1 == nil && e2 == nil {
-					return true
-				}
-			}
-		}
-		return false
-	}
-
 	for opi, op := range h.Ops {
 		hs := hashOf(op.B)
 		hx := hex.EncodeToString(hs[:])
@@ -394,6 +376,36 @@ func (x *runner) runHistory(h *History, count bool) (fails []failure) {
 			f()
 		}
 		where := fmt.Sprintf("op %d (%s b=%d)", opi, op.Op, op.B)
+		if op.Op == "poke" {
+			// somebody else overwrites bytes of a file while the store is closed (a legacy record, damaged data): applied
+			// to the real directory and to the model's file system alike; no property claim is made afterwards
+			if db != nil {
+				continue
+			}
+			raw, err := hex.DecodeString(op.Hex)
+			fn := filepath.Join(dir, "blockchain.new")
+			pl := fmt.Sprintf("poke idx %d %s", op.Pos, vlib.Hex(raw))
+			if op.File == "dat" {
+				fn = filepath.Join(dir, fmt.Sprintf("bl%08d.dat", op.B))
+				pl = fmt.Sprintf("poke dat %d %d %s", op.B, op.Pos, vlib.Hex(raw))
+			}
+			f, e2 := os.OpenFile(fn, os.O_RDWR, 0)
+			if err != nil || e2 != nil {
+				continue
+			}
+			f.WriteAt(raw, op.Pos)
+			f.Close()
+			if rep := x.o.MustAsk(pl); rep != "ok" {
+				fail("tie", "oracle-rejects-op", where+": the model does not cover this poke: "+rep)
+				return
+			}
+			poked = true
+			for _, e := range ref {
+				e.tainted = true
+			}
+			hit("op:poke")
+			continue
+		}
 		if db == nil && op.Op != "reopen" {
 			continue // malformed history (e.g. after shrinking): skip operations on a closed store
 		}
@@ -435,6 +447,9 @@ func (x *runner) runHistory(h *History, count bool) (fails []failure) {
 			}
 			// property: the index lists exactly the stored, non-invalid blocks, each once, with their fields
 			listed := map[[32]byte]int{}
+			if poked {
+				wl = nil // a damaged / legacy index: model = implementation only
+			}
 			for _, w := range wl {
 				listed[w.hash]++
 				e := ref[w.hash]
@@ -484,6 +499,7 @@ func (x *runner) runHistory(h *History, count bool) (fails []failure) {
 			allAdds[hs] = append(allAdds[hs], op.B)
 			if removedQ[hs] {
 				hit("add:same-hash-after-queued-invalid")
+				removedQ2[hs] = true
 			}
 			real = "ok"
 			if e := ref[hs]; e == nil {
@@ -506,25 +522,24 @@ func (x *runner) runHistory(h *History, count bool) (fails []failure) {
 				hit("get:ok")
 			}
 			if re := ref[hs]; re == nil {
-				if e == nil {
+				if e == nil && !poked {
 					fail("prop", "get-unknown-returns-data", where+": BlockGet of a hash that was never added (or was marked invalid before it was written) returned data")
 				}
 			} else if !re.tainted && !panicked {
 				if e != nil {
-					if shadowed(op.B) {
-						fail("prop", "backup-shadowed-by-new-file", fmt.Sprintf("%s: BlockGet of stored block %x fails (%v): its data file is in oldat/ and a new file with the same number was created in the main directory", where, hs[:8], e))
-					} else if !outOfRetention(op.B) {
+					if !outOfRetention(op.B) {
 						fail("prop", "get-stored-fails", fmt.Sprintf("%s: BlockGet of stored block %x fails: %v", where, hs[:8], e))
 					} else if withinKeep(op.B) {
 						fail("prop", "removed-within-retention", fmt.Sprintf("%s: BlockGet of stored block %x fails (%v): its data file was removed although it is within the configured retention (DataFilesKeep >= %d, highest data file %d)", where, hs[:8], e, minKeep, maxSeen))
 					} else {
 						hit("get:out-of-retention")
+						hit("get:out-of-retention:" + errKind(e))
 					}
 				} else {
 					if !bytes.Equal(bl, re.data) && outOfRetention(op.B) {
-						hit("get:out-of-retention-overwritten")
-					} else if !bytes.Equal(bl, re.data) && shadowed(op.B) {
-						fail("prop", "backup-shadowed-by-new-file", fmt.Sprintf("%s: BlockGet of stored block %x returns other bytes: its data file is in oldat/ and a new file with the same number was created in the main directory", where, hs[:8]))
+						// the block's data file left the retention: an error is the answer the property allows; bytes that
+						// are not the stored block are not
+						fail("prop", "out-of-retention-read-returns-other-bytes", fmt.Sprintf("%s: BlockGet of %x, whose data file was removed (out of retention), returns %d bytes without error that are not the stored block (%d bytes): the data-file number was used again", where, hs[:8], len(bl), len(re.data)))
 					} else if !bytes.Equal(bl, re.data) {
 						fail("prop", "get-wrong-bytes", fmt.Sprintf("%s: BlockGet of %x returns %d bytes that differ from the %d stored", where, hs[:8], len(bl), len(re.data)))
 					}
@@ -544,7 +559,7 @@ func (x *runner) runHistory(h *History, count bool) (fails []failure) {
 				real = fmt.Sprintf("len %d", l)
 			}
 			if re := ref[hs]; re != nil && !re.tainted && !panicked && op.Flag {
-				if e == nil && int(l) != len(re.data) && !shadowed(op.B) {
+				if e == nil && int(l) != len(re.data) {
 					fail("prop", "blocklength-wrong", fmt.Sprintf("%s: BlockLength(%x, decode_if_needed) = %d, stored block has %d bytes", where, hs[:8], l, len(re.data)))
 				}
 			}
@@ -611,6 +626,22 @@ func (x *runner) runHistory(h *History, count bool) (fails []failure) {
 				fail("tie", "model-violates-retention-claim", fmt.Sprintf("%s: the model's reply %q does not satisfy the durable-map claim within retention (%s)", where, short(model), c))
 			} else if count {
 				hit("claimR:ok")
+			}
+			// the Lean specification must not claim less than the reference map: where the Go map demands the stored
+			// bytes (entry present, not tainted, data file not removed), `claimR` must demand them too
+			ck := x.o.MustAsk("claimkind")
+			if count {
+				hit("claimR:" + op.Op + ":" + ck)
+			}
+			if re := ref[hs]; op.Op == "get" && re != nil && !re.tainted && !poked && !panicked && !outOfRetention(op.B) {
+				if ck != "data" {
+					fail("tie", "spec-claims-less-than-reference", fmt.Sprintf("%s: the reference map demands the stored bytes of %x, the Lean specification (claimR) claims %q", where, hs[:8], ck))
+				} else if count {
+					r.TieOK()
+					if removedQ2[hs] {
+						hit("claimR:data-for-block-stored-again-after-queued-invalid")
+					}
+				}
 			}
 		}
 		if panicked {
@@ -740,7 +771,7 @@ func (x *runner) doHistory(h *History) {
 			hh = x.shrink(h, f.Key)
 		}
 		rep := map[string]interface{}{"history": hh}
-		if f.Kind == "prop" && f.Key != "backup-shadowed-by-new-file" {
+		if f.Kind == "prop" {
 			x.propFound++
 		}
 		if f.Kind == "prop" {
